@@ -378,3 +378,42 @@ Definition C09_scion_any_ok (sender conn_port local_port : Z) (req : scion_hdr) 
     | _ => false
     end
   else match seen with [] => true | _ => false end.
+
+(* ---- the reply answers this request ----
+   "one NTP reply ... for each ... request": the reply belongs to the request it is sent for.
+   Its origin timestamp is the request's transmit timestamp (basic mode) or, for a follow-up
+   request in interleaved mode, the request's receive timestamp; a plain 48-byte request gets
+   a plain 48-byte reply, a request with NTS extension fields gets a reply that carries
+   extension fields too. *)
+Definition slice (b : list Z) (i n : nat) : list Z := firstn n (skipn i b).
+
+Definition reply_pairs_ok (payload r : list Z) : bool :=
+  (list_eqb (slice r 24 8) (slice payload 40 8) || list_eqb (slice r 24 8) (slice payload 32 8)) &&
+  (if zlen payload =? 48 then zlen r =? 48 else 48 <? zlen r).
+
+Definition C09_pairs_ok (payload : list Z) (replies : list (Z * list Z)) : bool :=
+  forallb (fun r => reply_pairs_ok payload (snd r)) replies.
+
+(* bursts: the replies belong to the well-formed requests, first to first *)
+Fixpoint C09_burst_pairs_ok (ps : list (list Z * bool)) (reps : list (Z * list Z)) : bool :=
+  match ps with
+  | [] => true
+  | (p, n) :: ps' =>
+      if wellformed_request p n then
+        match reps with
+        | r :: reps' => reply_pairs_ok p (snd r) && C09_burst_pairs_ok ps' reps'
+        | [] => true
+        end
+      else C09_burst_pairs_ok ps' reps
+  end.
+
+(* ---- SCION packet authenticator (SPAO) ----
+   A request that carries a client's packet authenticator whose MAC does not verify is not a
+   valid request to the listener: it gets no reply (the clause proper is C13's; here it is the
+   "sends no NTP reply for any other" side of this property).  A packet that is merely
+   relayed is not authenticated by the relay. *)
+Definition C09_scion_auth_ok (bad_mac : bool) (sender conn_port local_port : Z) (req : scion_hdr)
+  (payload : list Z) (nts_valid : bool) (rev : option (Z * list Z)) (seen : list (Z * scion_hdr * list Z)) : bool :=
+  if bad_mac && scion_addressed conn_port local_port req
+  then match seen with [] => true | _ => false end
+  else C09_scion_any_ok sender conn_port local_port req payload nts_valid rev seen.
